@@ -230,12 +230,14 @@ func (e editor) node(from *Selection, to *Selection, m meta.HasDataDefinitions, 
 		defer toChild.Release()
 	}
 	toRequest.New = true
+	// made by the node and then hidden by a condition
+	var madeHidden bool
 	switch strategy {
 	case editInsert:
 		if toChild != nil {
 			return fmt.Errorf("%w. item '%s' found in '%s'.  ", fc.ConflictError, m.Ident(), fromRequest.Path)
 		}
-		if toChild, err = to.selekt(&toRequest); err != nil {
+		if toChild, madeHidden, err = to.selektOrHidden(&toRequest); err != nil {
 			return err
 		}
 		if toChild != nil {
@@ -251,7 +253,7 @@ func (e editor) node(from *Selection, to *Selection, m meta.HasDataDefinitions, 
 		}
 
 		if toChild == nil {
-			if toChild, err = to.selekt(&toRequest); err != nil {
+			if toChild, madeHidden, err = to.selektOrHidden(&toRequest); err != nil {
 				return err
 			}
 			if toChild != nil {
@@ -269,6 +271,13 @@ func (e editor) node(from *Selection, to *Selection, m meta.HasDataDefinitions, 
 	}
 
 	if toChild == nil {
+		if madeHidden {
+			// it is not left behind empty
+			undo := toRequest
+			undo.New = false
+			undo.Delete = true
+			to.Node.Child(undo)
+		}
 		return fmt.Errorf("'%s' could not create '%s' container node ", toRequest.Path, m.Ident())
 	}
 	if err := e.enter(fromChild, toChild, newChild, strategy, false, false); err != nil {
